@@ -75,7 +75,11 @@ pub async fn run_case(backend: &str, seed: u64, rep: &mut Report) -> anyhow::Res
     let entries = read_entries(&zip).await?;
     rep.count_n(&format!("{backend}:archive-entries"), entries.len() as u64);
     // 1. round trip into empty storage
-    let arena = w.tmp.path().join("arena");
+    // the import targets live eight levels below `moat`, so that an entry climbing out of its target with up to
+    // a dozen `..` still lands inside the directory whose tree is compared before / after
+    let moat = w.tmp.path().join("moat");
+    let arena = moat.join("l1/l2/l3/l4/l5/l6/l7/l8/arena");
+    let arena_rel = "l1/l2/l3/l4/l5/l6/l7/l8/arena";
     let (t_ok, _) = fresh_target(&arena, backend, "restore-ok").await?;
     rep.case(&format!("{backend}:{seed}:roundtrip"), true);
     match import_backup_archive(&zip, &t_ok).await {
@@ -153,7 +157,8 @@ pub async fn run_case(backend: &str, seed: u64, rep: &mut Report) -> anyhow::Res
             let parts: Vec<&str> = name.split('/').collect();
             if parts.len() < 2 || !seen_top.insert(parts[0].to_string()) { continue; }
             for cut in 1..parts.len() {
-                for ups in [cut + 1, cut + 4, cut + 7] {
+                let heights: Vec<usize> = if seed % 1_000_003 == 0 { (1..=10).collect() } else { vec![1 + (rng.below(3) as usize), 4 + (rng.below(3) as usize), 7 + (rng.below(3) as usize)] };
+                for ups in heights.into_iter().map(|h| cut + h - 1) {
                     let ev = format!("{}/{}escape-{cut}-{ups}.txt", parts[..cut].join("/"), "../".repeat(ups));
                     let mut e = entries.clone();
                     e.push((ev.clone(), b"escaped".to_vec()));
@@ -174,17 +179,18 @@ pub async fn run_case(backend: &str, seed: u64, rep: &mut Report) -> anyhow::Res
         let hz = w.tmp.path().join(format!("hostile-{k}.zip"));
         write_entries(&hz, ents).await?;
         let (t, dir) = fresh_target(&arena, backend, &format!("restore-h{k}")).await?;
-        let arena_before = tree(&arena);
+        let arena_before = tree(&moat);
         let t_before = tree(&dir);
         let res = std::panic::AssertUnwindSafe(import_backup_archive(&hz, &t));
         let res = futures::FutureExt::catch_unwind(res).await;
-        let arena_after = tree(&arena);
+        let arena_after = tree(&moat);
         let t_after = tree(&dir);
         let kind = what.split(':').next().unwrap().to_string();
         rep.case(&format!("{backend}:{seed}:{what}"), true);
         rep.count(&format!("{backend}:{kind}:{}", match &res { Ok(Ok(_)) => "accepted", Ok(Err(_)) => "rejected", Err(_) => "panic" }));
         // nothing may be written outside the import target
-        let outside: Vec<&String> = arena_after.keys().filter(|p| !p.starts_with(&format!("restore-h{k}/")) && arena_before.get(*p) != arena_after.get(*p)).collect();
+        let outside: Vec<&String> = arena_after.keys().filter(|p| !p.starts_with(&format!("{arena_rel}/restore-h{k}/")) && arena_before.get(*p) != arena_after.get(*p)).collect();
+        let outside_owned: Vec<String> = outside.iter().map(|p| p.to_string()).collect();
         let escaped_abs = Path::new("/tmp/verif-escape-abs.txt").exists();
         if !outside.is_empty() || escaped_abs {
             rep.spec_fail(&format!("c18-archive-entry-escapes-target-{backend}"), json!({"case_seed": seed, "backend": backend, "variant": what, "outside": outside.iter().take(3).collect::<Vec<_>>()}), "importing the archive wrote outside the import target directory");
@@ -206,6 +212,11 @@ pub async fn run_case(backend: &str, seed: u64, rep: &mut Report) -> anyhow::Res
                 }
             }
         }
+        // leave the moat as it was (whatever escaped is removed too, so that the next variant starts clean)
+        drop(t);
+        let _ = std::fs::remove_file(&hz);
+        let _ = std::fs::remove_dir_all(&dir);
+        for p in outside_owned { let _ = std::fs::remove_file(moat.join(p)); }
     }
     // 3. raw corruption of the zip container itself (C15): the reader must answer with an error or an account
     {
